@@ -197,7 +197,7 @@ class StateMatrix:
         if common.isscalar(kvalue):
             coeff = [kvalue] * min(kdim, 3) + [tvalue] * (kdim == 4)
         else:
-            coeff = list(kvalue)[:3] + [tvalue] * (kdim == 4)
+            coeff = list(kvalue)[: min(kdim, 3)] + [tvalue] * (kdim == 4)
         return common.asarray(coeff)
 
     @property
